@@ -3,6 +3,7 @@
 mod ast;
 mod frags;
 mod sat;
+mod desc;
 mod tables;
 mod tap;
 
@@ -19,6 +20,7 @@ fn main() {
         "sat" => sat::run(&args[2..]),
         "frags" => frags::run(&args[2..]),
         "tap" => tap::run(&args[2..]),
+        "desc" => desc::run(&args[2..]),
         other => {
             eprintln!("unknown engine {}", other);
             std::process::exit(2);
